@@ -132,6 +132,7 @@ def begin_path():
     """Call at the start of every harness execution: reset per-path state."""
     COUNT["paths"] += 1
     REACH["flag"] = False
+    GLOBAL_RANDOM["draws"] = 0
     del _CF[:]
     if _PRISTINE:
         try:
@@ -301,12 +302,55 @@ class FakeUuidMod:
         return "%s-%d" % (self.prefix, self.c.next())
 
 
-class FakeRandomMod:
-    def __init__(self):
-        self.c = _Counter()
+GLOBAL_RANDOM = {"draws": 0}
+
+
+class _PrivateRandom:
+    """A generator of the agent's own (random.Random() / random.SystemRandom()): drawing from it concerns nobody else."""
+    _c = None
+
+    def __init__(self, *a, **k):
+        pass
 
     def getrandbits(self, n):
+        return _PrivateRandom._c.next()
+
+    def random(self):
+        return 0.5
+
+    def randint(self, a, b):
+        return a
+
+
+class FakeRandomMod:
+    """Stand-in for the `random` MODULE as seen from an agent module. Its module-level functions draw from the process-wide
+    generator that the application may have seeded: every such draw by the agent advances the application's random
+    sequence (a host-transparency matter, C01) and is counted in GLOBAL_RANDOM."""
+    Random = _PrivateRandom
+    SystemRandom = _PrivateRandom
+
+    def __init__(self):
+        self.c = _Counter()
+        _PrivateRandom._c = self.c
+
+    def _global(self):
+        GLOBAL_RANDOM["draws"] += 1
+
+    def getrandbits(self, n):
+        self._global()
         return self.c.next()
+
+    def random(self):
+        self._global()
+        return 0.5
+
+    def randint(self, a, b):
+        self._global()
+        return a
+
+    def choice(self, seq):
+        self._global()
+        return seq[0]
 
 
 def install_determinism(clock):
@@ -320,7 +364,17 @@ def install_determinism(clock):
     es.time_ns = clock
     tc.uuid = FakeUuidMod("ctx")
     tpc.uuid = FakeUuidMod("tp")
-    es.random = FakeRandomMod()
+    fake_random = FakeRandomMod()
+    es.random = fake_random
+    import random as real_random
+    for name, mod in list(sys.modules.items()):
+        if (name == "deep" or name.startswith("deep.")) and mod is not None:
+            if getattr(mod, "random", None) is real_random:
+                mod.random = fake_random
+            for attr, val in list(vars(mod).items()):
+                # a generator of the agent's own, created at import: made deterministic, and not counted as a global draw
+                if isinstance(val, real_random.Random):
+                    setattr(mod, attr, _PrivateRandom())
     return clock
 
 
